@@ -5,6 +5,7 @@
 # quick check and undoes it.
 set -u
 export GOFLAGS=-mod=mod GOPROXY=off GOSUMDB=off GOTOOLCHAIN=local
+export GOSYM_NOEVIDENCE=1
 seed="$1"; dir=/verif/seeded/$seed
 prop="${2:-$(python3 -c "import json;print(json.load(open('$dir/meta.json'))['property'])")}"
 pkgdir=$(python3 -c "import json;print(json.load(open('$dir/meta.json'))['demo_package_dir'])")
